@@ -87,6 +87,13 @@ DumpOK(ev) == ev.rv_objsense = 0 /\ ev.rv_obj = 0 /\ ev.rv_bounds = 0 /\ ev.rv_r
               \* named deviation: with no rows (columns) at all the names query may report "no names assigned"
               /\ (ev.rv_rownames = 0 \/ ev.nrows = 0) /\ (ev.rv_colnames = 0 \/ ev.ncols = 0)
 
+\* the modelled envelope: objective, right-hand sides, ranges and coefficients are finite numbers (only bounds may be infinite);
+\* a file can put the library's "infinity" 1e150 anywhere - such a problem is still watched for crashes but not interpreted
+DataFinite(ev) == /\ \A k \in 1..Len(ev.obj) : ~S!IsInf(ev.obj[k])
+                  /\ \A k \in 1..Len(ev.rhs) : ~S!IsInf(ev.rhs[k])
+                  /\ \A k \in 1..Len(ev.range) : ~S!IsInf(ev.range[k])
+                  /\ \A i \in 1..Len(ev.rows) : \A k \in 1..Len(ev.rows[i]) : ~S!IsInf(ev.rows[i][k].v)
+
 \* differences between a dump and the LP the specification holds (set of strings; {} = equal)
 DumpDiff(L, ev) ==
   IF ~DumpOK(ev) THEN {"a query call failed"}
@@ -289,7 +296,7 @@ Step(ev) ==
                      P == IF ok THEN LPFromDump(ev) ELSE EmptyLP(FALSE)
                      d == IF ~ok THEN {"a query call failed on a problem returned by the reader"}
                           ELSE DumpDiff(P, ev) \ {"nzcount"}
-                 IN R([s EXCEPT !.sync = ok, !.lp = IF ok THEN P ELSE @, !.pend = {}, !.par = ev.par],
+                 IN R([s EXCEPT !.sync = ok /\ DataFinite(ev), !.lp = IF ok THEN P ELSE @, !.pend = {}, !.par = ev.par],
                       IF d = {} THEN {} ELSE {V(ev, {"C11"}, "the problem delivered by the reader is internally inconsistent: " \o ToString(d))})
                ELSE LET d == DumpDiff(L, ev) \cup ParDiff(s.par, ev)
                         \* no edit on this handle since the last dump and still different: another handle's call changed it (C16)
